@@ -238,7 +238,7 @@ def case(ctx, rng, idx, state):
 if __name__ == "__main__":
     harness.main(
         PROP, "fault_enumeration", case, setup_fn=setup,
-        tiers=dict(quick=dict(cases=64, shards=8, time=240), thorough=dict(cases=320, shards=16, time=1500)),
+        tiers=dict(quick=dict(cases=64, shards=8, time=900), thorough=dict(cases=320, shards=16, time=3000)),
         rule="generic 2-WF systems with or without a declared point group, small grids, n=1..3 (quick) / 1..5 (thorough) refinement iterations; every "
              "composition of n into restart segments (exhaustive per case in the thorough tier, at most 8 sampled per case in the quick tier), both "
              "storage modes, directory listing order per restart from {sorted, reversed, file system, random}; distinct by (system parameters, "
